@@ -23,20 +23,77 @@ from .common import call_args, effect_calls, is_call_of, lifted_to_callers, loop
 
 
 def check(model: Model, rep: Report, tier: str):
-    a1(model, rep)
-    a2(model, rep)
-    a3(model, rep)
-    a4(model, rep)
-    a5(model, rep, "C07.A5")
+    with rep.isolated():
+        a8(model, rep)
+    with rep.isolated():
+        a1(model, rep)
+    with rep.isolated():
+        a2(model, rep)
+    with rep.isolated():
+        a3(model, rep)
+    with rep.isolated():
+        a4(model, rep)
+    with rep.isolated():
+        a5(model, rep, "C07.A5")
     from .c05 import check_registry_copy
     rep.rule("C07.A6", "copies re-target their acquisition registry through the lookup (= C05.K6) and every sub-circuit handed to add() takes the copying path (= C02.L7)")
-    check_registry_copy(model, rep, "C07.A6")
+    with rep.isolated():
+        check_registry_copy(model, rep, "C07.A6")
     from .c02 import l7
-    share_rule(rep, model, l7, "C07.A6", rep.rules_text["C07.A6"])
+    with rep.isolated():
+        share_rule(rep, model, l7, "C07.A6", rep.rules_text["C07.A6"])
     from .c05 import _k1_k2
-    share_rule(rep, model, _k1_k2, "C07.A6", rep.rules_text["C07.A6"], only_rules=None)
+    with rep.isolated():
+        share_rule(rep, model, _k1_k2, "C07.A6", rep.rules_text["C07.A6"], only_rules=None)
     rep.rules_text["C07.A6"] = ("copies re-target their acquisition registry through the lookup (= C05.K6), keep tag and strategy (= C05.K1) and every sub-circuit "
                                 "handed to add() takes the copying path (= C02.L7)")
+
+
+# ---------------------------------------------------------------------------------------------
+def a8(model: Model, rep: Report):
+    """A8: an index is computed from the listing as it is NOW: the registry keeps nothing between two questions."""
+    rep.rule("C07.A8", "the index lookup keeps no state between calls: AcquisitionRegistry.get_registry_at (with the private helpers it runs) and the two index accessors store "
+                       "nothing on the registry / the operation -- a table built at the first question goes stale when the listing grows, is unrolled or is nested afterwards")
+    R = model.cls("AcquisitionRegistry")
+    todo = [(R, R.resolve("get_registry_at"))]
+    for cname in ("RegistryAcquisitionStrategy", "DispersiveMeasure"):
+        C = model.maybe_cls(cname)
+        if C is None:
+            continue
+        for nm in ("get_acquisition_index", "get_circuit_level_acquisition_index", "acquisition_index", "circuit_level_acquisition_index"):
+            g = C.properties.get(nm) or C.resolve(nm)
+            if g is not None and "abstractmethod" not in g.decorators and (C, g) not in todo:
+                todo.append((C, g))
+    n = 0
+    for C, g in todo:
+        if g is None:
+            raise AnalysisError("AcquisitionRegistry.get_registry_at not found")
+        try:
+            ps = PathEnumerator(Evaluator(model, inline_methods=False)).function_paths(g, self_cls=C)
+        except Unsupported as e:
+            raise AnalysisError(f"{C.name}.{g.name}: {e}")
+        n += 1
+        s_ = sym(g.self_name)
+
+        def all_events(evs):
+            for e in evs:
+                yield e
+                if e.kind == "loop" and e.extra and "paths" in e.extra:
+                    for bp in e.extra["paths"]:
+                        yield from all_events(bp.events)
+        st = []
+        for p in ps:
+            for e in all_events(p.events):
+                if e.kind == "store" and e.term is not None and subterms(e.term[1], lambda y: y == s_):
+                    st.append(f"{show(e.term[1])}.{e.term[2]}")
+                if e.kind == "effect" and e.term is not None and e.term[0] == "call" and isinstance(e.term[1], tuple) and e.term[1][0] == "attr" \
+                        and e.term[1][2] in ("append", "extend", "update", "setdefault", "add", "clear", "pop", "__setitem__") and e.term[1][1][0] == "attr" and e.term[1][1][1] == s_:
+                    st.append(f"{show(e.term[1][1])}.{e.term[1][2]}(..)")
+                if e.kind == "substore" and e.term is not None and subterms(e.term, lambda y: y[0] == "attr" and y[1] == s_):
+                    st.append(show(e.term)[:60])
+        rep.check(not st, "C07.A8", f"{C.name}.{g.name}[stateless]", g.loc, found=sorted(set(st)) or "no store on the receiver", required="nothing stored between calls",
+                  what="the index answer is served from state kept on the registry: " + ", ".join(sorted(set(st))), detail="stateless")
+    rep.floor("index lookup functions", n, 1)
 
 
 # ---------------------------------------------------------------------------------------------
